@@ -1,5 +1,5 @@
 //! Executor source under the baton scheduler (C10).
-//! Case line:  scripts (p/r strings, comma separated) | loop program (s<j> = schedule task j, d = dispatch) | wake programs (task digits; ';' between threads) | schedule
+//! Case line:  scripts (strings over p pending, r ready, w wakes itself then pending; comma separated) | loop program (s<j> = schedule task j, d = dispatch) | wake programs (task digits; ';' between threads) | schedule
 //! Output: executed steps `tid:yieldid`, POLL<j>, DONE<j>, WRONGTHREAD.
 use crate::m_cchan::{do_step, finalize};
 use crate::sched::{yield_here, Sched};
@@ -16,7 +16,7 @@ type Slots = Arc<Vec<Mutex<Option<Waker>>>>;
 
 struct ScriptFut {
     j: usize,
-    outcomes: Vec<bool>,
+    outcomes: Vec<u8>,
     idx: usize,
     slots: Slots,
     log: Log,
@@ -30,12 +30,16 @@ impl Future for ScriptFut {
         }
         *self.slots[self.j].lock().unwrap() = Some(cx.waker().clone());
         self.log.lock().unwrap().push(format!("POLL{}", self.j));
-        let r = self.outcomes.get(self.idx).copied().unwrap_or(false);
+        let r = self.outcomes.get(self.idx).copied().unwrap_or(0);
         self.idx += 1;
-        if r {
-            Poll::Ready(self.j)
-        } else {
-            Poll::Pending
+        match r {
+            1 => Poll::Ready(self.j),
+            2 => {
+                // the task wakes itself while it is being polled
+                cx.waker().wake_by_ref();
+                Poll::Pending
+            }
+            _ => Poll::Pending,
         }
     }
 }
@@ -52,7 +56,19 @@ fn run_case(line: &str) -> String {
     if parts.len() != 4 {
         return "BAD".into();
     }
-    let scripts: Vec<Vec<bool>> = parts[0].split(',').map(|s| s.trim().chars().map(|c| c == 'r').collect()).collect();
+    let scripts: Vec<Vec<u8>> = parts[0]
+        .split(',')
+        .map(|s| {
+            s.trim()
+                .chars()
+                .map(|c| match c {
+                    'r' => 1,
+                    'w' => 2,
+                    _ => 0,
+                })
+                .collect()
+        })
+        .collect();
     let lops: Vec<String> = parts[1].split_whitespace().map(|s| s.to_string()).collect();
     let wprogs: Vec<Vec<usize>> = if parts[2].is_empty() {
         vec![]
